@@ -13,11 +13,65 @@ def tier_of(tier):
     return "thorough" if tier == "thorough" else "quick"
 
 
-def build(desc, workdir, name="plt00000"):
-    """Write the plotfile described by desc under workdir; return (path, RefPlot)."""
+def build(desc, workdir, name="plt00000", prehistory=None):
+    """Write the plotfile described by desc under workdir; return (path, RefPlot).  For half of the descriptors (by a hash of
+    the descriptor; `prehistory` forces it) the process has ALREADY USED the plotfile when the check starts: see
+    reader_prehistory()."""
     path = os.path.join(workdir, name)
     ref = refmodel.write_plotfile(desc, path)
+    if prehistory is None:
+        import zlib
+        prehistory = zlib.crc32(json.dumps(desc, sort_keys=True, default=str).encode()) % 2 == 1
+    if prehistory and not os.environ.get("KV_NO_PREHISTORY"):
+        reader_prehistory(path)
     return path, ref
+
+
+PREHISTORY_MARK = -7.77e77
+
+
+def reader_prehistory(path):
+    """What a caller may have done with this plotfile earlier in the same process: open it, read single boxes by integer
+    index through field selectors of several widths (one-field slices first, wider ones later), names and lists, iterate a
+    level, select several boxes - and then EDIT the returned arrays in place (they belong to the caller).  Nothing is judged
+    here (C01 / C15 judge reads); errors are ignored.  Whatever the package remembers from this (caches keyed by path, file,
+    offset or header line, arrays it still shares with the caller, state of shared helpers) is in place when the operation
+    under check starts - which must not notice."""
+    so = sys.stdout
+    sys.stdout = io.StringIO()
+    try:
+        from amr_kitchen import PlotfileCooker
+        # (in the free-running pass of C12 the pools are the real ones, here too)
+        with (contextlib.nullcontext() if os.environ.get("KV_REAL_POOLS") else vpool.controlled()):
+            pck = PlotfileCooker(path)
+            names = list(pck.fields)
+            held = []
+            for lv in range(pck.limit_level + 1):
+                for sel in (slice(0, 1), slice(1, 2), names[-1], [0], slice(None), names[0]):
+                    try:
+                        held.append(pck[sel][lv][0])
+                    except Exception:
+                        pass
+                try:
+                    held.extend(pck[names[0]][lv][:2])
+                except Exception:
+                    pass
+                try:
+                    for a in pck[0:1][lv]:
+                        held.append(a)
+                        break
+                except Exception:
+                    pass
+            for a in held:
+                try:
+                    if isinstance(a, np.ndarray) and a.flags.writeable:
+                        a[...] = PREHISTORY_MARK
+                except Exception:
+                    pass
+    except Exception:
+        pass
+    finally:
+        sys.stdout = so
 
 
 @contextlib.contextmanager
